@@ -582,6 +582,9 @@ PragmaProbes ==
        Probe("pragma:key-value", "-", << Pragma("jobs", <<"1">>), Decl("o", A1("number")), Out("o"), Fact("o", <<N(1)>>) >>, Rows("o", << <<"1">> >>)) >>
 
 Probes(p) == FunctorProbes(p) \o ConstraintProbes(p) \o TermProbes(p) \o ClauseProbes(p) \o DeclProbes(p)
+\* probes that can be printed and translated but not executed here (no functor library, no fact file)
+NoRunKinds == {"term:user-functor", "directive:input", "directive:parameter-value", "directive:parameter-value-escape-quote",
+               "directive:parameter-value-escape-backslash", "decl:qualifier-input"}
 \* every probe also uses these
 BaseKinds == {"decl:plain", "clause:fact", "clause:rule", "directive:output", "term:var", "literal:atom", "term:number"}
 KindsOfProbes(ps) == {ps[i].kind : i \in 1..Len(ps)}
